@@ -26,6 +26,7 @@ import (
 	"github.com/tuneinsight/lattigo/v6/utils/bignum"
 
 	"verif/harness/eng"
+	"verif/harness/obs"
 )
 
 const oprec = 256 // mantissa bits of the oracle arithmetic
@@ -145,6 +146,7 @@ type st struct {
 	enc    *rlwe.Encryptor
 	dec    *rlwe.Decryptor
 	ecdHi  *ckks.Encoder
+	dft    *dft
 	ecdDef *ckks.Encoder
 	eval   *ckks.Evaluator
 	rots   []int
@@ -186,10 +188,22 @@ func build(c *eng.Ctx, cfg pcfg) *st {
 	s.N = params.N()
 	s.maxSlots = params.MaxSlots()
 	s.logMax = params.LogMaxSlots()
-	s.lcpr = params.LevelsConsumedPerRescaling()
+	// documented rules, computed independently: one prime per rescaling up to a 64-bit default scale,
+	// two above; scalars / vectors are read at max(53, log2(default scale)) bits
+	s.lcpr = 1
+	if cfg.LogScale > 64 {
+		s.lcpr = 2
+	}
+	s.encPrec = uint(max(53, cfg.LogScale))
 	s.q = params.Q()
-	s.encPrec = params.EncodingPrecision()
-	s.defScale = fB(&params.DefaultScale().Value)
+	c.Check(params.LevelsConsumedPerRescaling() == s.lcpr && params.MaxDepth() == params.MaxLevel()/s.lcpr, "C06|Parameters.LevelsConsumedPerRescaling|wrong-value", func() string {
+		return fmt.Sprintf("LogDefaultScale=%d: LevelsConsumedPerRescaling=%d MaxDepth=%d MaxLevel=%d", cfg.LogScale, params.LevelsConsumedPerRescaling(), params.MaxDepth(), params.MaxLevel())
+	})
+	c.Check(params.EncodingPrecision() == s.encPrec && params.LogDefaultScale() == cfg.LogScale, "C06|Parameters.EncodingPrecision|wrong-value", func() string {
+		return fmt.Sprintf("LogDefaultScale=%d: EncodingPrecision=%d LogDefaultScale()=%d", cfg.LogScale, params.EncodingPrecision(), params.LogDefaultScale())
+	})
+	ds := params.DefaultScale()
+	s.defScale = fB(&ds.Value)
 	s.F = float64(s.N)
 	if cfg.CI {
 		s.F = 2 * float64(s.N)
@@ -231,12 +245,15 @@ func build(c *eng.Ctx, cfg pcfg) *st {
 		s.logQ = append(s.logQ, flog2(acc))
 		_ = i
 	}
-	// T = max_j |tau_j(s)|: the secret decoded as a scale-1 plaintext over all slots
+	M := s.N
+	if cfg.CI {
+		M = 2 * s.N
+	}
+	s.dft = newDFT(M, s.maxSlots)
+	// T = max_j |tau_j(s)|: the secret (NTT + Montgomery form) embedded like a scale-1 plaintext
 	{
-		pt := ckks.NewPlaintext(params, 0)
-		pt.Scale = rlwe.NewScale(1)
-		params.RingQ().AtLevel(0).IMForm(s.sk.Value.Q, pt.Value)
-		v := s.decodeFullPt(pt)
+		r0 := params.RingQ().AtLevel(0)
+		v := s.slotsOf(obs.Centered(r0, obs.Plain(r0, s.sk.Value.Q, true, true)), fF(1))
 		s.T = v.mag()*1.0001 + 1e-6
 	}
 	// key-switching noise (slot norm) per level: F * ( N*Be*sum_i (a_i+1) Q_Di / P + (#P+2)(1+T) )
@@ -262,17 +279,7 @@ func build(c *eng.Ctx, cfg pcfg) *st {
 // observation
 
 func (s *st) decodeFullPt(pt *rlwe.Plaintext) vec {
-	p := pt.CopyNew()
-	p.LogDimensions = s.params.LogMaxDimensions()
-	vals := make([]*bignum.Complex, s.maxSlots)
-	if err := s.ecdHi.Decode(p, vals); err != nil {
-		panic(fmt.Errorf("oracle decode: %w", err))
-	}
-	out := make(vec, s.maxSlots)
-	for i, v := range vals {
-		out[i] = cx{fB(v[0]), fB(v[1])}
-	}
-	return out
+	return s.slotsOf(s.coeffsOf(pt.El()), fB(&pt.Scale.Value))
 }
 
 func (s *st) decodeFull(ct *rlwe.Ciphertext) vec {
@@ -327,6 +334,7 @@ func (s *st) prodQ(level, k int) *big.Float {
 
 type expect struct {
 	op       string // API entry point
+	sigOp    string // entry point(s) named in the signature of a triaged input class (one root cause = one signature)
 	key      string // distinct key of this evaluation (op|kind|out|relations)
 	nontriv  bool
 	want     vec
@@ -335,6 +343,7 @@ type expect struct {
 	deg      int
 	logSlots int
 	B        float64
+	added    float64 // part of B that is the worst-case noise added by this very operation (evidence only)
 	pred     string // predicate naming the input class when it is one with a separately triaged behaviour
 	depth    int
 	uneq     bool
@@ -352,6 +361,21 @@ func sigOf(op, class, pred string) string {
 	return sg
 }
 
+// sig: failures inside a triaged input class share one signature per root cause.
+func (ex *expect) sig(class string) string {
+	if ex.pred == "" {
+		return sigOf(ex.op, class, "")
+	}
+	op := ex.op
+	if ex.sigOp != "" {
+		op = ex.sigOp
+	}
+	if class != "panic" && class != "unexpected-error" {
+		class = "wrong-result"
+	}
+	return sigOf(op, class, ex.pred)
+}
+
 // call runs f (an evaluator call returning an error), turning panics and unexpected errors into
 // violations. Returns true when the call completed without error.
 func (s *st) call(ex *expect, f func() error) bool {
@@ -359,17 +383,16 @@ func (s *st) call(ex *expect, f func() error) bool {
 	p, val := eng.Panics(func() { err = f() })
 	if p {
 		s.c.Eval(1)
-		op := ex.op
 		if ex.pred == "scalar-uint" {
-			op = "Add,Sub,Mul,MulThenAdd" // one root cause, one signature
+			ex.sigOp = "Add,Sub,Mul,MulThenAdd" // one root cause, one signature
 		}
-		s.c.Violate(sigOf(op, "panic", ex.pred), fmt.Sprintf("%s panicked: %v; %s", ex.op, val, ex.key), s.witness(ex, fmt.Sprint(val)))
+		s.c.Violate(ex.sig("panic"), fmt.Sprintf("%s panicked: %v; %s", ex.op, val, ex.key), s.witness(ex, fmt.Sprint(val)))
 		s.c.Count("panics", 1)
 		return false
 	}
 	if err != nil {
 		s.c.Eval(1)
-		s.c.Violate(sigOf(ex.op, "unexpected-error", ex.pred), fmt.Sprintf("%s returned %v; %s", ex.op, err, ex.key), s.witness(ex, err.Error()))
+		s.c.Violate(ex.sig("unexpected-error"), fmt.Sprintf("%s returned %v; %s", ex.op, err, ex.key), s.witness(ex, err.Error()))
 		return false
 	}
 	return true
@@ -402,7 +425,7 @@ func (s *st) judge(ex *expect, out *rlwe.Ciphertext) *ent {
 	c.Count("op_"+ex.op, 1)
 	c.Distinct(ex.key+"|"+s.cfg.Fam+"|ls"+fmt.Sprint(s.cfg.LogScale/10*10), ex.nontriv || s.cfg.Fam != "std64")
 	fail := func(class, detail string) *ent {
-		c.Violate(sigOf(ex.op, class, ex.pred), detail+" ["+ex.key+"] prog="+fmt.Sprint(s.prog), s.witness(ex, detail))
+		c.Violate(ex.sig(class), detail+" ["+ex.key+"] prog="+fmt.Sprint(s.prog), s.witness(ex, detail))
 		return nil
 	}
 	if out == nil || out.MetaData == nil {
@@ -426,7 +449,10 @@ func (s *st) judge(ex *expect, out *rlwe.Ciphertext) *ent {
 	}
 	e, at := maxDiff(dec, ex.want)
 	mag := ex.want.mag()
-	if !(e <= ex.B) {
+	// recorded scales are 128-bit floats: decoding with the recorded scale is exact to 2^-128 per
+	// scale operation only
+	ex.B += math.Ldexp(mag, -122)
+	if !(e <= ex.B*(1+1e-9)+1e-300) {
 		return fail("wrong-value", fmt.Sprintf("slot %d: decoded %v, expected %v, |diff|=2^%.2f > budget 2^%.2f (scale 2^%.2f, level %d, |m|max=%.4g)",
 			at, dec[at], ex.want[at], math.Log2(e), math.Log2(ex.B), flog2(got), out.Level(), mag))
 	}
@@ -441,8 +467,11 @@ func (s *st) judge(ex *expect, out *rlwe.Ciphertext) *ent {
 		return fail("wrong-dimensions", fmt.Sprintf("LogDimensions %+v batched=%v, expected cols=%d", out.LogDimensions, out.IsBatched, ex.logSlots))
 	}
 	// evidence
-	if ex.B > 0 && e > 0 {
-		c.Max("max_err_over_budget_ppm", int64(1e6*e/ex.B))
+	if ex.added > 0 {
+		// how much of the worst-case allowance of this operation was actually used
+		if r := (e - (ex.B - ex.added)) / ex.added; r > 0 {
+			c.Max("max_used_of_added_noise_bound_ppm_"+ex.op, int64(1e6*r))
+		}
 	}
 	if ex.B > math.Ldexp(math.Max(mag, 1), -6) {
 		c.Count("weak_budget_checks", 1)
@@ -462,6 +491,9 @@ func (s *st) judge(ex *expect, out *rlwe.Ciphertext) *ent {
 
 // fresh encrypts `vals` (n = 2^logSlots values) at the given level and scale.
 func (s *st) fresh(level int, scale *big.Float, logSlots int, vals vec, hi bool) *ent {
+	if !s.fits(scale, vals.mag(), level) {
+		return nil // the message would not fit the modulus: not a valid input
+	}
 	pt := ckks.NewPlaintext(s.params, level)
 	pt.Scale = rlwe.NewScale(scale)
 	pt.LogDimensions = ring.Dimensions{Rows: 0, Cols: logSlots}
@@ -493,7 +525,11 @@ func (s *st) fresh(level int, scale *big.Float, logSlots int, vals vec, hi bool)
 	bound := s.F*(s.Be+0.5)/f64(sc) + math.Ldexp(float64(len(vals))*64*math.Max(mag, 1e-30), -int(prec))
 	s.c.Eval(1)
 	if !(e <= bound) {
-		s.c.Violate("C06|Encode+Encrypt|fresh-error-above-worst-case", fmt.Sprintf("slot %d: |diff|=2^%.2f > 2^%.2f (scale 2^%.2f level %d logSlots %d hi=%v) got %v want %v",
+		sig := "C06|Encode+Encrypt|fresh-error-above-worst-case"
+		if s.cfg.CI && logSlots == 0 {
+			sig = "C06|Encoder.Encode|wrong-value|conjugate-invariant-ring-1-slot"
+		}
+		s.c.Violate(sig, fmt.Sprintf("slot %d: |diff|=2^%.2f > 2^%.2f (scale 2^%.2f level %d logSlots %d hi=%v) got %v want %v",
 			at, math.Log2(e), math.Log2(bound), flog2(sc), level, logSlots, hi, dec[at], want[at]), s.cfg)
 		return nil
 	}
